@@ -25,7 +25,7 @@ func famRL(t *testing.T, r *hx.Rng, o *hx.Out) {
 	scriptF4(t, r, o, 0)      // remove + add between send and timeout
 	scriptF4(t, r, o, 3)      // reset between send and timeout
 	scriptRecvPending(t, r, o) // window change while a forwarded receive is pending, then its error ack
-	n := hx.N(10, 250)
+	n := hx.N(10, 120)
 	for i := 0; i < n; i++ {
 		h := newRlHist(t, r)
 		steps := hx.N(18, 30) + r.Intn(hx.N(14, 30))
